@@ -1067,6 +1067,68 @@ func c21GenPat(r *Rand) string {
 	return s
 }
 
+// values with the characters that the literal part of a star pattern may have to match verbatim
+var c21StarVals = []string{"a*b*c", "C:\\dir\\file.txt", "a.b.c", "what?no", "a b c", "x[1]y[2]", "a]b]c", "a\\b\\c", "*.*.*", "?a?b", "a. b. c", " a  b ", "[a][b]", "a*?b*?c"}
+
+// c21GenStarLit draws a removal pattern made of one star next to (or inside) a literal whose special
+// characters are escaped or quoted: as source text (src) and as removePattern receives it (pat, after
+// expand.Pattern: quoted characters escaped with a backslash).
+func c21GenStarLit(r *Rand) (src, pat string) {
+	specials := []string{"*", "?", "[", "]", "\\", ".", " ", "*", "?", "\\", "."}
+	plain := []string{"a", "b", "c", "/", ":"}
+	n := 1 + r.Intn(3)
+	var lsrc, lpat strings.Builder
+	piece := func() {
+		if r.Chance(70) {
+			c := r.Pick(specials)
+			esc := c == "*" || c == "?" || c == "[" || c == "\\" // what pattern.QuoteMeta escapes
+			switch r.Intn(3) {
+			case 0: // backslash escape
+				lsrc.WriteString("\\" + c)
+				lpat.WriteString("\\" + c)
+			case 1: // double quotes (a backslash inside them is written twice)
+				if c == "\\" {
+					lsrc.WriteString("\"\\\\\"")
+				} else {
+					lsrc.WriteString("\"" + c + "\"")
+				}
+				if esc {
+					lpat.WriteString("\\")
+				}
+				lpat.WriteString(c)
+			default: // single quotes
+				lsrc.WriteString("'" + c + "'")
+				if esc {
+					lpat.WriteString("\\")
+				}
+				lpat.WriteString(c)
+			}
+		} else {
+			c := r.Pick(plain)
+			lsrc.WriteString(c)
+			lpat.WriteString(c)
+		}
+	}
+	var a, b, ap, bp string
+	for i := 0; i < n; i++ {
+		piece()
+	}
+	a, ap = lsrc.String(), lpat.String()
+	lsrc.Reset()
+	lpat.Reset()
+	switch r.Intn(4) {
+	case 0:
+		return "*" + a, "*" + ap
+	case 1:
+		return a + "*", ap + "*"
+	case 2:
+		piece()
+		b, bp = lsrc.String(), lpat.String()
+		return a + "*" + b, ap + "*" + bp
+	}
+	return "*" + a + "*", "*" + ap + "*"
+}
+
 // c21PatSrc writes a pattern as source text; slashEsc: inside ${x/…/…} an unescaped slash ends the pattern.
 func c21PatSrc(r *Rand, pat string, slashEsc bool, allowQuote bool) string {
 	var sb strings.Builder
@@ -1191,6 +1253,10 @@ func c21GenForm(r *Rand, st c21State) string {
 		return s + "}"
 	case 9, 10, 11:
 		op := r.Pick([]string{"#", "##", "%", "%%"})
+		if r.Chance(40) {
+			src, _ := c21GenStarLit(r)
+			return "${" + param + op + src + "}"
+		}
 		return "${" + param + op + c21PatSrc(r, c21GenPat(r), false, true) + "}"
 	case 12, 13:
 		op := r.Pick([]string{"^", "^^", ",", ",,"})
@@ -1293,9 +1359,46 @@ func c21IsCaseSrc(src string) bool {
 	return i > 2 && !strings.ContainsAny(src[:i], "/#%:@-=?+")
 }
 
+// c21IsRemoveSrc: a # ## % %% form (not ${#x}) whose pattern has a backslash or a quote.
+func c21IsRemoveSrc(src string) bool {
+	i := strings.IndexAny(src[3:], "#%")
+	if i < 0 {
+		return false
+	}
+	i += 3
+	return !strings.ContainsAny(src[:i], "/:@-=?+^,") && strings.ContainsAny(src[i:], "\\\"'")
+}
+
 func c21GenCase(r *Rand) c21Case {
 	st := c21GenState(r)
 	src := c21GenForm(r, st)
+	if len(src) > 4 && c21IsRemoveSrc(src) && r.Chance(65) {
+		// removal with escaped/quoted literal parts: values that contain those characters
+		pick := func() string { return r.Pick(c21StarVals) }
+		v := st.vars["x"]
+		switch v.kind {
+		case 's':
+			v.str = pick()
+		case 'i', 'a':
+			v.list = append([]string{}, v.list...)
+			for i := range v.list {
+				if r.Chance(70) {
+					v.list[i] = pick()
+				}
+			}
+		}
+		st.vars["x"] = v
+		st.params = append([]string{}, st.params...)
+		for i := range st.params {
+			if r.Chance(70) {
+				st.params[i] = pick()
+			}
+		}
+		if y := st.vars["y"]; y.kind == 's' {
+			y.str = pick()
+			st.vars["y"] = y
+		}
+	}
 	if c21IsCaseSrc(src) && r.Chance(65) {
 		// case conversion: values in which multi-character patterns match substrings, on the
 		// scalar, the array elements and the positional parameters
@@ -1556,6 +1659,15 @@ func c21Units(c *Ctx, r *Rand) {
 		c.Op("speccase "+op+" "+hx(pat)+" "+hx(s), hx(got))
 		c.Case("case\x00"+s+"\x00"+src, got != s, "unit=case")
 	case 3:
+		if r.Chance(50) {
+			// one star next to / inside a literal with escaped special characters
+			_, pat := c21GenStarLit(r)
+			if r.Chance(75) {
+				s = r.Pick(c21StarVals)
+			}
+			c21Remove(c, s, pat, r.Bool(), r.Bool())
+			return
+		}
 		c21Remove(c, s, c21GenPat(r), r.Bool(), r.Bool())
 	}
 }
@@ -1795,6 +1907,16 @@ var c21BracketOK = []string{"[ab]", "[!a]", "[a-b]", "[^a]", "[]a]", "[A-Z]", "[
 
 // c21PatternClean: the pattern stays clear of what property C17 records about bracket expressions.
 func c21PatternClean(pat string) bool {
+	// escaped characters are literals
+	var sb strings.Builder
+	for i := 0; i < len(pat); i++ {
+		if pat[i] == '\\' && i+1 < len(pat) {
+			i++
+			continue
+		}
+		sb.WriteByte(pat[i])
+	}
+	pat = sb.String()
 	for _, b := range c21BracketOK {
 		pat = strings.ReplaceAll(pat, b, "")
 	}
